@@ -64,6 +64,12 @@ Fixpoint select {A} (keep : list bool) (a : list A) : list A :=
   | b :: k', x :: a' => if b then x :: select k' a' else select k' a'
   | _, _ => []
   end.
+(* Array2D.trimmed_after_convolution_from: `self.native[cut:-cut, cut:-cut]` (a masked native copy), the mask resized to
+   the same window, the result stored as the source was *)
+Definition trim_val (native : bool) (m keep : list bool) (a : arr) : arr :=
+  let nat := if native then maskmul m a else native_from m a in
+  let cropped := select keep nat in
+  if native then cropped else slim_from (select keep m) cropped.
 Definition count_false (m : list bool) : nat := length (filter negb m).
 Definition any_true (m : list bool) : bool := existsb (fun b => b) m.
 
@@ -270,7 +276,8 @@ Definition step (qf : qfn) (p : policy) (st : state) (o : op) : state * obs * ef
   | OTrim j keep =>
       match nth_error (st_objs st) j with
       | None => (st, bad, eff0)
-      | Some ob => derive st ob (select keep (hget h (o_cell ob))) (select keep (o_mask ob)) (p_trim_keeps_cache p) true
+      | Some ob => derive st ob (trim_val (o_native ob) (o_mask ob) keep (hget h (o_cell ob))) (select keep (o_mask ob))
+                          (p_trim_keeps_cache p) true
       end
   | ORead j q =>
       match read_cached qf st j q with
@@ -425,7 +432,7 @@ Definition sstep (qf : qfn) (sp : sstate) (o : op) : sstate * obs :=
   | OTrim j keep =>
       match nth_error (sp_objs sp) j with
       | None => (sp, bad)
-      | Some so => let v := select keep (so_val so) in
+      | Some so => let v := trim_val (so_native so) (so_mask so) keep (so_val so) in
                    (newobj (mkSObj v (select keep (so_mask so)) (so_native so)), Ok v)
       end
   | ORead j q | OPlain j q =>
